@@ -382,7 +382,7 @@ func sortedIDs(keys []benchproc.Key, ids map[benchproc.Key]int) []hx.Sx {
 	return out
 }
 
-func f64s(xs []float64) hx.Sx {
+func bsF64s(xs []float64) hx.Sx {
 	it := make([]hx.Sx, len(xs))
 	for i, x := range xs {
 		it[i] = hx.F64(x)
@@ -460,7 +460,7 @@ func c14Case(run *bsRun, csvAgree, textAgree bool) hx.Sx {
 			if cell.Baseline != nil {
 				cmp = hx.L(hx.L(hx.F64(cell.Comparison.P), hx.I(cell.Comparison.N1), hx.I(cell.Comparison.N2), hx.F64(cell.Comparison.Alpha)))
 			}
-			cells = append(cells, hx.L(hx.I(x.r), hx.I(x.c), f64s(cell.Sample.Values), hx.Bool(cell.Baseline != nil),
+			cells = append(cells, hx.L(hx.I(x.r), hx.I(x.c), bsF64s(cell.Sample.Values), hx.Bool(cell.Baseline != nil),
 				hx.F64(cell.Summary.Center), hx.F64(cell.Summary.Lo), hx.F64(cell.Summary.Hi), cmp, hx.List(vary)))
 		}
 		for _, c := range t.Cols {
@@ -497,13 +497,13 @@ func c14Case(run *bsRun, csvAgree, textAgree bool) hx.Sx {
 		s := benchmath.NewSample(run.groups[g], &th)
 		samples[g] = s
 		sm := assumptionOf(g[0]).Summary(s, run.confidence)
-		osum = append(osum, hx.L(hx.L(hx.I(g[0]), f64s(s.Values)), hx.L(hx.F64(sm.Center), hx.F64(sm.Lo), hx.F64(sm.Hi))))
+		osum = append(osum, hx.L(hx.L(hx.I(g[0]), bsF64s(s.Values)), hx.L(hx.F64(sm.Center), hx.F64(sm.Lo), hx.F64(sm.Hi))))
 	}
 	for _, a := range gkeys {
 		for _, b := range gkeys {
 			if a[0] == b[0] && a[1] == b[1] && a[2] != b[2] {
 				cmp := assumptionOf(a[0]).Compare(samples[a], samples[b])
-				ocmp = append(ocmp, hx.L(hx.L(hx.I(a[0]), f64s(samples[a].Values)), f64s(samples[b].Values),
+				ocmp = append(ocmp, hx.L(hx.L(hx.I(a[0]), bsF64s(samples[a].Values)), bsF64s(samples[b].Values),
 					hx.L(hx.F64(cmp.P), hx.I(cmp.N1), hx.I(cmp.N2), hx.F64(cmp.Alpha))))
 			}
 		}
